@@ -651,6 +651,7 @@ static void x_once(const plan_t *p)
 
     simheap_reset(&hc, p->cfg[CF_JUNK]);
     simheap_far((int)p->cfg[CF_FAR]);
+    simheap_far_nodeoff((p->cfg[CF_SPREAD] >> 4 & 1) ? offsetof(struct xelem, hn2) : offsetof(struct xelem, hn));      /* (mode 3: the node member of table 0) */
     faultenum_apply();
     mode_g = p->mode;
     ntab = (int)p->cfg[CF_NT]; if (ntab < 1) ntab = 1; if (ntab > NTAB) ntab = NTAB;
